@@ -5,7 +5,7 @@
 set -u
 cd /verif
 export GOFLAGS=-mod=mod GOPROXY=off GOSUMDB=off GOTOOLCHAIN=local GOWORK=off
-(cd tools/resolint && go build -o /verif/bin/resolint .) || exit 2
+[ -n "${RESOLINT_NOBUILD:-}" ] || (cd tools/resolint && go build -o /verif/bin/resolint .) || exit 2   # RESOLINT_NOBUILD=1: use bin/resolint as it is (development: the source is being edited)
 PROPS=$(python3 -c 'import json; print(" ".join(c["property_id"] for c in json.load(open("/verif/MANIFEST.json"))["checks"]))')
 rc=0
 if [ -n "$(git -C /repo status --porcelain)" ]; then echo "/repo has uncommitted changes; refusing"; exit 2; fi
